@@ -36,7 +36,8 @@ fn mix(s: u64, i: u64) -> u64 {
 ///
 /// 0: printable ASCII without newline; 1: lower-case letters with embedded
 /// newlines; 2: arbitrary non-NUL bytes; 3: multi-byte UTF-8 characters (a unit
-/// is a character, so chunk boundaries split characters).
+/// is a character, so chunk boundaries split characters); 4: white-space rich
+/// text (ASCII and Unicode blanks, CR, VT, FF next to newlines).
 pub fn stream_bytes(s: u64, n: usize, alphabet: u8) -> Vec<u8> {
     let mut out = Vec::with_capacity(n);
     for i in 0..n as u64 {
@@ -45,6 +46,14 @@ pub fn stream_bytes(s: u64, n: usize, alphabet: u8) -> Vec<u8> {
             0 => out.push(b'!' + (x % 90) as u8),
             1 => out.push(if x % 7 == 0 { b'\n' } else { b'a' + (x % 26) as u8 }),
             2 => out.push(1 + (x % 255) as u8),
+            4 => {
+                // white-space rich: blanks of every kind next to newlines
+                const WS: [&str; 14] = [
+                    "a", " ", "\t", "\n", "\r", "\u{b}", "\u{c}", "\u{a0}", "\u{3000}", "\u{2028}",
+                    "b", "\n", " ", "\u{85}",
+                ];
+                out.extend_from_slice(WS[(x % 14) as usize].as_bytes());
+            }
             _ => {
                 const CHARS: [&str; 8] = ["a", "\u{e9}", "\u{3042}", "\u{1F600}", "z", "\n", "\u{df}", "\u{20AC}"];
                 out.extend_from_slice(CHARS[(x % 8) as usize].as_bytes());
@@ -491,11 +500,135 @@ fn io_main(env: &mut Env<VS>, args: Vec<Field>) -> BFut<'_> {
     })
 }
 
+/// Serialises the complete shell state of the caller: every field of `Env`
+/// that a script can change plus the simulated process (cwd, umask,
+/// descriptor table, dispositions, mask, NOFILE limit). One `key=value` per
+/// line, sorted. SIGCHLD is left out of dispositions and mask (the shell
+/// installs its own handler the first time it waits for a child).
+pub fn snapshot_text(env: &mut Env<VS>) -> String {
+    use yash_env::system::resource::{GetRlimit as _, Resource};
+    use yash_env::system::r#virtual::SIGCHLD;
+    use yash_env::system::{GetCwd as _, Umask as _};
+    use yash_env::variable::Scope;
+    let mut lines: Vec<String> = Vec::new();
+    for (name, var) in env.variables.iter(Scope::Global) {
+        lines.push(format!(
+            "var:{name}={:?}|exp={}|ro={}",
+            var.value,
+            var.is_exported as u8,
+            var.read_only_location.is_some() as u8
+        ));
+    }
+    lines.push(format!("pos={:?}", env.variables.positional_params().values));
+    for f in env.functions.iter() {
+        lines.push(format!("fn:{}={}|ro={}", f.name, f.body, f.read_only_location.is_some() as u8));
+    }
+    for a in env.aliases.iter() {
+        lines.push(format!("alias:{}={}|g={}", a.0.name, a.0.replacement, a.0.global as u8));
+    }
+    lines.push(format!("opt={:?}", env.options));
+    for (cond, cur, _parent) in env.traps.iter() {
+        use yash_env::trap::Action;
+        let a = match &cur.action {
+            Action::Default => "D".to_string(),
+            Action::Ignore => "I".to_string(),
+            Action::Command(c) => format!("C:{c}"),
+        };
+        if let yash_env::trap::Condition::Signal(n) = cond
+            && *n == SIGCHLD
+        {
+            continue;
+        }
+        match cond {
+            yash_env::trap::Condition::Signal(n) => lines.push(format!("trap:S{:03}={a}", n.as_raw())),
+            other => lines.push(format!("trap:{other:?}={a}")),
+        }
+    }
+    lines.push(format!("arg0={}", env.arg0));
+    lines.push(format!("jobs={}", env.jobs.len()));
+    {
+        use yash_env::stack::Frame;
+        let frames: Vec<String> = env
+            .stack
+            .iter()
+            .map(|f| match f {
+                Frame::Loop => "Loop".to_string(),
+                Frame::Subshell => "Subshell".to_string(),
+                Frame::Condition => "Condition".to_string(),
+                Frame::Builtin(b) => format!("Builtin({})", b.name.value),
+                Frame::DotScript => "DotScript".to_string(),
+                Frame::Trap(c) => format!("Trap({c:?})"),
+                Frame::InitFile => "InitFile".to_string(),
+                #[allow(unreachable_patterns)]
+                _ => "Other".to_string(),
+            })
+            .collect();
+        lines.push(format!("stack={}", frames.join(",")));
+    }
+    lines.push(format!(
+        "cwd={}",
+        env.system.getcwd().map(|p| p.to_string_lossy().into_owned()).unwrap_or_default()
+    ));
+    let old = env.system.umask(yash_env::system::Mode::empty());
+    env.system.umask(old);
+    lines.push(format!("umask={:o}", old.bits()));
+    lines.push(format!(
+        "nofile={:?}",
+        env.system.getrlimit(Resource::NOFILE).map(|l| l.soft).ok()
+    ));
+    let pid = env.system.getpid();
+    let state = world_state();
+    let st = state.borrow();
+    if let Some(p) = st.processes.get(&pid) {
+        for (fd, body) in p.fds() {
+            lines.push(format!(
+                "fd:{}={},{}",
+                fd.0,
+                body.open_file_description.borrow().serial(),
+                body.flags.contains(yash_env::system::FdFlag::CloseOnExec) as u8
+            ));
+        }
+        // (virtual signal numbers go beyond 100; default dispositions are
+        // left out, so an absent key means Default)
+        for n in 1i32..=160 {
+            let sig = yash_env::signal::Number::from_raw_unchecked(std::num::NonZero::new(n).unwrap());
+            if sig == SIGCHLD {
+                continue;
+            }
+            let d = p.disposition(sig);
+            if d != yash_env::system::Disposition::Default {
+                lines.push(format!("disp:{n:03}={d:?}"));
+            }
+        }
+        let mut mask: Vec<i32> = {
+            use yash_env::system::Sigset as _;
+            p.blocked_signals().iter().map(|s| s.as_raw()).filter(|s| *s != SIGCHLD.as_raw()).collect()
+        };
+        mask.sort();
+        lines.push(format!("mask={mask:?}"));
+    }
+    lines.sort();
+    lines.join("\n")
+}
+
+/// `snap LABEL` - records [`snapshot_text`] in the history; `$?` unchanged.
+fn snap_main(env: &mut Env<VS>, args: Vec<Field>) -> BFut<'_> {
+    let label = strs(&args).join(" ");
+    let pid = env.system.getpid().0;
+    let text = snapshot_text(env);
+    if let Some(ctl) = ctl() {
+        ctl.record(pid, "snap", 0, 0, &format!("{label}\n{text}"));
+    }
+    let st = env.exit_status;
+    Box::pin(std::future::ready(BResult::new(st)))
+}
+
 pub fn virtual_probes() -> Vec<(&'static str, Builtin<VS>)> {
     let mut v = generic_probes::<VS>();
     v.push(("mark", Builtin::new(Type::Mandatory, mark_main)));
     v.push(("fds", Builtin::new(Type::Mandatory, fds_main)));
     v.push(("tell", Builtin::new(Type::Mandatory, tell_main)));
     v.push(("io", Builtin::new(Type::Mandatory, io_main)));
+    v.push(("snap", Builtin::new(Type::Mandatory, snap_main)));
     v
 }
